@@ -567,6 +567,31 @@ func execVest(x *Exec, toks []string) string {
 	case "v.q.spendable":
 		a, _ := sdk.AccAddressFromBech32(toks[1])
 		return "ok spendable=" + coinsStr(app.BankKeeper.SpendableCoins(x.ctx, a))
+	case "v.updateDenom":
+		msg := &vesttypes.MsgUpdateDenomParam{Authority: authorityOf(x, toks[1]), Denom: unesc(toks[2])}
+		before := k.Denom(x.ctx)
+		hadPools := len(k.GetAllAccountVestingPools(x.ctx)) > 0
+		res, _ := x.deliver(msg.ValidateBasic, func(ctx sdk.Context) error {
+			_, err := ms.UpdateDenomParam(sdk.WrapSDKContext(ctx), msg)
+			return err
+		})
+		after := k.Denom(x.ctx)
+		if toks[1] != "gov" && (res == "ok" || after != before) {
+			x.hit("C13", "authority", "cfevesting/denom", "update from authority "+toks[1]+" was accepted")
+		}
+		if hadPools && after != before {
+			x.hit("C13", "denom-frozen", "cfevesting/denom", "vesting denom changed while pools exist")
+		}
+		if res != "ok" && after != before {
+			x.hit("C13", "rejected-keeps", "cfevesting/denom", "rejected update changed the denom")
+		}
+		if r, _ := catch(func() error { return k.GetParams(x.ctx).Validate() }); r != "ok" {
+			x.hit("C13", "stored-params-valid", "cfevesting", "stored vesting params do not validate")
+		}
+		if res == "panic" {
+			x.hit("C20", "message-panics", toks[0], "handler or ValidateBasic panicked")
+		}
+		return res + " denom=" + esc(after)
 	case "v.end":
 		return "."
 	}
